@@ -4,5 +4,5 @@ CONSTANTS
   AttLists <- Att2
 INIT MetaInit
 NEXT Next
-INVARIANTS ChainLaw ShortCircuit HandlerOncePerError Emit
+INVARIANTS ChainLaw ShortCircuit HandlerOncePerError FlushOncePerAppender Emit
 CHECK_DEADLOCK FALSE
